@@ -1,6 +1,7 @@
 package yqlib
 
 import (
+	"fmt"
 	"os"
 
 	"github.com/mikefarah/yq/v4/pkg/verifhook"
@@ -57,8 +58,13 @@ func (w *writeInPlaceHandlerImpl) CreateTempFile() (*os.File, error) {
 func (w *writeInPlaceHandlerImpl) FinishWriteInPlace(evaluatedSuccessfully bool) error {
 	log.Debug("Going to write in place, evaluatedSuccessfully=%v, target=%v", evaluatedSuccessfully, w.inputFilename)
 	verifhook.StepFile("inplace.closeTemp", w.tempFile)
-	safelyCloseFile(w.tempFile)
+	closeErr := w.tempFile.Close()
 	_ = verifhook.Step("inplace.finish", w.inputFilename)
+	if closeErr != nil && evaluatedSuccessfully {
+		// the temp file may be incomplete: do not replace the target with it
+		tryRemoveTempFile(w.tempFile.Name())
+		return fmt.Errorf("failed to close temp file %v: %w", w.tempFile.Name(), closeErr)
+	}
 	if evaluatedSuccessfully {
 		log.Debug("Moving temp file to target")
 		return tryRenameFile(w.tempFile.Name(), w.inputFilename)
